@@ -212,6 +212,9 @@ struct ilup {
         return base->bytes();
     }
 
+#ifdef AMGCL_VERIF
+    friend struct ::amgcl::verif::access;
+#endif
     private:
         std::shared_ptr<Base> base;
 };
